@@ -85,6 +85,8 @@ def h1_units(ctx, rid='H1', scope=None):
     for b in F.src_bodies():
         if b.kind not in ('fn', 'method', 'closure'):
             continue
+        if re.match(r'^<?(formatter|compiler)::', b.path) or (b.rec.get('parent') or '').startswith(('formatter::', 'compiler::')):
+            continue          # positions inside printed renderings (ASCII digits) never reach a highlight token: C07 N9 tabulates them
         for i in b.normal_blocks:
             for s in b.blocks[i]['stmts']:
                 if s['k'] != 'assign' or s['rv'] != 'binop' or s['op'] not in CMP:
